@@ -68,6 +68,43 @@ theorem copy_equal (w : World) (s : Nat) :
   simp [World.phasesOf, World.rowIdsOf, World.isMat] at hp hf hm ⊢
   exact ⟨⟨hp, hf⟩, hm⟩
 
+/-- `copy(thermo=package)`: when it succeeds the new stream has the phases, flows (as functions of
+the chemical), T and P of the original and the package asked for; it fails exactly when the
+original holds a chemical the package lacks (and is a plain copy for the stream's own package). -/
+theorem copy_to_equal (w : World) (s pid : Nat) (pkg : List Nat) :
+    (∀ w' i, w.copyTo s pid pkg = .ok (w', i) →
+      (w'.observe i).cond = (w.observe s).cond ∧
+      ((w.strs s).pkgId ≠ 2 * pid → (w'.observe i).pkg = pkg ∧ (w'.strs i).pkgId = 2 * pid)) ∧
+    ((∃ e, w.copyTo s pid pkg = .error e) ↔
+      ((w.strs s).pkgId ≠ 2 * pid ∧
+        ¬ (w.rowIdsOf (w.strs s).imol).all (fun r => remapOk pkg (w.strs s).pkg (w.rows r)) = true)) := by
+  have hce := (copy_equal w s).1
+  constructor
+  · intro w' i h
+    unfold World.copyTo at h
+    simp only at h
+    split at h
+    · next heq => cases h; exact ⟨hce, fun hne => absurd heq hne⟩
+    · split at h
+      · cases h
+        refine ⟨?_, fun _ => ?_⟩
+        · rw [← hce]
+          simp [World.observe, Obs.cond, World.phasesOf, World.rowIdsOf]
+        · simp [World.observe]
+      · cases h
+  · unfold World.copyTo
+    simp only
+    constructor
+    · rintro ⟨e, h⟩
+      split at h
+      · cases h
+      · next hne =>
+        split at h
+        · cases h
+        · next hall => exact ⟨hne, hall⟩
+    · rintro ⟨hne, hall⟩
+      exact ⟨.undefinedChemical, by simp [hne, hall]⟩
+
 /-- All objects of a copy are new: it shares nothing with any stream that existed, and the
 originals are untouched. -/
 theorem copy_fresh_and_frame (w : World) (s : Nat) (hsc : Scoped w) :
